@@ -13,7 +13,48 @@ def genTables : Tables :=
   { binOps := Generated.binOpTable, unaryOps := Generated.unaryOpTable,
     builtins := Generated.builtinNames, specialParams := Generated.specialParams }
 
+def hexVal (c : Char) : Option Nat :=
+  if '0' ≤ c && c ≤ '9' then some (c.toNat - '0'.toNat)
+  else if 'a' ≤ c && c ≤ 'f' then some (c.toNat - 'a'.toNat + 10) else none
+
+def floatOfHex (s : String) : Option Float :=
+  if s.length ≠ 16 then none else
+  (s.toList.foldlM (fun (acc : Nat) c => (hexVal c).map (acc * 16 + ·)) 0).map (fun n => Float.ofBits n.toUInt64)
+
+def hexOfFloat (x : Float) : String :=
+  let n := x.toBits.toNat
+  let digs := (List.range 16).map fun i => (n / 16 ^ (15 - i)) % 16
+  String.ofList (digs.map fun d => if d < 10 then Char.ofNat (d + 48) else Char.ofNat (d + 87))
+
+def costByName : String → Option (Float → Float)
+  | "quad" => some fun x => (x - 1.5) * (x - 1.5) + 2.0
+  | "shifted" => some fun x => (x + 3.0) * (x + 3.0)
+  | "linear" => some fun x => 2.0 * x + 1.0
+  | "flat" => some fun _ => 3.0
+  | _ => none
+
+/-- `graddesc <cost> <x0> <lo|_> <hi|_> <lr> <maxIter> <tol> <momentum> <eps>`  (floats as 16 hex digits of their bits) -/
+def respondGradDesc (ws : List String) : String :=
+  match ws with
+  | [nm, x0, lo, hi, lr, mi, tol, mom, eps] =>
+    match costByName nm, floatOfHex x0, floatOfHex lr, mi.toNat?, floatOfHex tol, floatOfHex mom, floatOfHex eps with
+    | some f, some x0, some lr, some mi, some tol, some mom, some eps =>
+      let bounds : Option (Option (Float × Float)) :=
+        if lo == "_" then some none else match floatOfHex lo, floatOfHex hi with
+          | some l, some h => some (some (l, h))
+          | _, _ => none
+      match bounds with
+      | none => "(bad-request graddesc-bounds)"
+      | some b =>
+        match gradDescent Arith.float f { x0 := x0, bounds := b, learningRate := lr, maxIter := mi, tolerance := tol, momentum := mom, epsilon := eps } with
+        | .ok r => "(ok (" ++ " ".intercalate (r.history.map hexOfFloat) ++ ") " ++ hexOfFloat r.optimal ++ " " ++ hexOfFloat r.minimumCost ++ ")"
+        | .valueError => "(ValueError)"
+        | .runtimeError => "(RuntimeError)"
+    | _, _, _, _, _, _, _ => "(bad-request graddesc-args)"
+  | _ => "(bad-request graddesc-arity)"
+
 def respond (line : String) : String :=
+  if line.startsWith "graddesc " then respondGradDesc ((line.drop 9).toString.splitOn " ") else
   if line.startsWith "parse " then
     match parseExpr genTables (line.drop 6).toString with
     | some e => Sexp.toString (l [a "ok", e.toSexp])
